@@ -1769,6 +1769,10 @@ bool GennaroJareckiKrawczykRabinNTS::Verify
 
 	try
 	{
+		// 0. Check whether $0 \le s < q$ holds; otherwise $s + q$ would be
+		//    accepted as another signature on the same message
+		if ((mpz_sgn(s) < 0) || (mpz_cmp(s, q) >= 0))
+			throw false;
 		// 1. Compute $r = g^s y^{-c} \bmod p$
 		tmcg_mpz_fpowm(fpowm_table_g, r, g, s, p);
 		mpz_powm(foo, y, c, p);
